@@ -219,6 +219,10 @@ func runWorker(out string, n int, seed int64, from int) int {
 			p.Mode, p.Cap, p.Pace, p.Threads = "sched", schedCap, []string{"fast", "slow", "stall", "late"}[rnd.Intn(4)], 2
 			p.Procs = []int{1, 2, 4, 16}[rnd.Intn(4)]
 			dirty = runSched(p, i, rnd, emit)
+		} else if onlyMode == "longadd" || rnd.Intn(8) == 0 {
+			p.Mode, p.Cap, p.Pace, p.Threads = "longadd", 16, "fast", 3
+			p.Procs = []int{2, 4, 16}[rnd.Intn(3)]
+			dirty = runLongAdd(p, i, rnd, emit)
 		} else if rnd.Intn(5) == 0 {
 			p.Mode, p.Cap, p.Pace, p.Threads = "duel", 0, "gated", 2+rnd.Intn(3)
 			p.Procs = []int{2, 4, 16}[rnd.Intn(3)]
@@ -741,10 +745,11 @@ func runSched(p program, idx int, rnd *rand.Rand, emit func(interface{})) (dirty
 	st := func() int64 { return atomic.AddInt64(&stamp, 1) }
 	// plans
 	type step struct{ op string }
-	plans := make([][]step, 2)
+	nthr := 2 + rnd.Intn(2) // two or three API goroutines
+	plans := make([][]step, nthr)
 	closer := -1
 	if rnd.Intn(2) == 0 {
-		closer = rnd.Intn(2)
+		closer = rnd.Intn(nthr)
 	}
 	for t := range plans {
 		for c := 0; c < 3+rnd.Intn(4); c++ {
@@ -857,7 +862,7 @@ func runSched(p program, idx int, rnd *rand.Rand, emit func(interface{})) (dirty
 	}()
 	// API goroutines
 	var api sync.WaitGroup
-	inflight := make([]atomic.Value, 2)
+	inflight := make([]atomic.Value, nthr)
 	for t := range plans {
 		api.Add(1)
 		go func(t int) {
@@ -939,4 +944,158 @@ func runSched(p program, idx int, rnd *rand.Rand, emit func(interface{})) (dirty
 	mu.Unlock()
 	emit(J{"k": "endprog", "idx": idx, "hang": hang, "crashed": false})
 	return dirty
+}
+
+
+// runLongAdd: Close while an Add is at work for a long time (a recursive Add over a tree of directories holds the
+// mutex for the whole walk).  Close must wait for it or make it fail with ErrClosed - never let it go on using the
+// descriptor, whose number the next Watcher of the process may get: a fresh Watcher created right after Close must
+// hold no kernel watch.  The call/return history goes to LinTrace like every other program.
+func runLongAdd(p program, idx int, rnd *rand.Rand, emit func(interface{})) (dirty bool) {
+	runtime.GOMAXPROCS(p.Procs)
+	root, _ := os.MkdirTemp("", "vstress-")
+	root, _ = filepath.EvalSymlinks(root)
+	defer os.RemoveAll(root)
+	os.Chdir(root)
+	defer os.Chdir("/")
+	for i := 0; i < 120; i++ {
+		os.MkdirAll(fmt.Sprintf("p1/d%03d/s", i), 0o755)
+	}
+	os.Mkdir("p2", 0o755)
+	atomic.StoreInt64(&stamp, 0)
+	emit(J{"k": "prog", "idx": idx, "id": p.ID, "mode": p.Mode, "threads": p.Threads, "cap": p.Cap, "pace": p.Pace, "procs": p.Procs})
+	fsnotify.VerifSetRecurse(true)
+	defer fsnotify.VerifSetRecurse(false)
+	w, err := fsnotify.NewBufferedWatcher(uint(p.Cap))
+	if err != nil {
+		emit(J{"k": "infra", "what": "NewWatcher: " + err.Error()})
+		emit(J{"k": "endprog", "idx": idx, "hang": []string{}, "crashed": false})
+		return false
+	}
+	var mu sync.Mutex
+	var hist []rec
+	log := func(r rec) {
+		mu.Lock()
+		hist = append(hist, r)
+		mu.Unlock()
+	}
+	stop := make(chan struct{})
+	var bg sync.WaitGroup
+	bg.Add(1)
+	go func() { // consumer
+		defer bg.Done()
+		evs, errs := w.Events, w.Errors
+		for evs != nil || errs != nil {
+			select {
+			case _, ok := <-evs:
+				if !ok {
+					evs = nil
+				}
+			case _, ok := <-errs:
+				if !ok {
+					errs = nil
+				}
+			}
+		}
+	}()
+	_ = stop
+	call := func(name, op, path, arg string) {
+		log(rec{Stamp: atomic.AddInt64(&stamp, 1), K: "call", T: name, Op: op, Path: path})
+		r := rec{K: "ret", T: name, Op: op, Path: path}
+		switch op {
+		case "add":
+			r.Res = classify(w.Add(arg))
+		case "remove":
+			r.Res = classify(w.Remove(arg))
+		case "watchlist":
+			l := w.WatchList()
+			r.Res, r.Nil = "ok", l == nil
+			keep := []string{}
+			for _, x := range l { // the directories below p1 are internal to the recursive watch: not part of the sequential specification
+				if !strings.HasPrefix(x, "p1/") {
+					keep = append(keep, x)
+				}
+			}
+			sort.Strings(keep)
+			r.WL = keep
+		case "close":
+			r.Res = classify(w.Close())
+		}
+		r.Stamp = atomic.AddInt64(&stamp, 1)
+		log(r)
+	}
+	delay := time.Duration(rnd.Intn(1500)) * time.Microsecond
+	var api sync.WaitGroup
+	var fresh *fsnotify.Watcher
+	api.Add(3)
+	go func() { defer api.Done(); call("t0", "add", "p1", "p1/...") }()
+	go func() {
+		defer api.Done()
+		time.Sleep(delay)
+		call("t1", "close", "", "")
+		fresh, _ = fsnotify.NewWatcher() // gets the lowest free descriptor number: the one Close just released
+	}()
+	go func() {
+		defer api.Done()
+		call("t2", "add", "p2", "p2")
+		call("t2", "watchlist", "", "")
+		call("t2", "remove", "p2", "p2")
+	}()
+	done := make(chan struct{})
+	go func() { api.Wait(); close(done) }()
+	hang := []string{}
+	select {
+	case <-done:
+	case <-time.After(15 * time.Second):
+		hang = append(hang, "close_or_add")
+		dirty = true
+	}
+	if !dirty {
+		c := make(chan struct{})
+		go func() { bg.Wait(); close(c) }()
+		select {
+		case <-c:
+		case <-time.After(5 * time.Second):
+			hang = append(hang, "channels_not_closed")
+			dirty = true
+		}
+	}
+	if fresh != nil {
+		if n := countMarks(fsnotify.VerifInotifyFd(fresh)); n > 0 {
+			hang = append(hang, "foreign_kernel_watches_in_fresh_watcher")
+		}
+		fresh.Close()
+	}
+	mu.Lock()
+	sort.Slice(hist, func(i, j int) bool { return hist[i].Stamp < hist[j].Stamp })
+	for i := range hist {
+		if hist[i].K != "call" {
+			continue
+		}
+		hist[i].Res = "noreturn"
+		for j := i + 1; j < len(hist); j++ {
+			if hist[j].K == "ret" && hist[j].T == hist[i].T {
+				hist[i].Res, hist[i].WL, hist[i].Nil = hist[j].Res, hist[j].WL, hist[j].Nil
+				break
+			}
+		}
+	}
+	for _, r := range hist {
+		if r.WL == nil {
+			r.WL = []string{}
+		}
+		emit(r)
+	}
+	mu.Unlock()
+	emit(J{"k": "endprog", "idx": idx, "hang": hang, "crashed": false})
+	return dirty
+}
+
+// countMarks: the number of kernel watches of an inotify descriptor (/proc/self/fdinfo)
+func countMarks(fd int) int {
+	b, err := os.ReadFile(fmt.Sprintf("/proc/self/fdinfo/%d", fd))
+	if err != nil {
+		return 0
+	}
+	return strings.Count(string(b), "inotify wd:")
 }
